@@ -347,8 +347,8 @@ class BPTC19696:
 
         for row in range(0, table.shape[0]):
             table[row] = Hamming15113.correct_numpy_array(table[row])
-            for col in range(0, table.shape[1]):
-                table[:, col] = Hamming1393.correct_numpy_array(table[:, col])
+        for col in range(0, table.shape[1]):
+            table[:, col] = Hamming1393.correct_numpy_array(table[:, col])
 
         for data_index, (
             interleave_index,
